@@ -35,7 +35,7 @@ func (g *gen) push(op Op) int {
 	}
 	first := len(g.pool)
 	d := 0
-	if op.Op != "new" && op.Op != "empty" && op.Op != "cube" && op.I < len(g.depth) {
+	if op.Op != "new" && op.Op != "empty" && op.Op != "cube" && op.Op != "build" && op.I < len(g.depth) {
 		d = g.depth[op.I]
 	}
 	if op.Op == "append" {
@@ -228,8 +228,58 @@ func (g *gen) hollow(k int) int {
 	return g.push(Op{Op: "setmaterials", I: k, Mats: [][2]int{}, Spare: g.spare()})
 }
 
+// a mesh assembled by a constructor that takes whole attribute maps (NewPointCloud / NewLineStripMesh: empty arrays
+// are dropped, the indices are implied) or by one of the generator functions of modeling/primitives
+func (g *gen) seedBuild() int {
+	r := g.r
+	switch r.Intn(10) {
+	case 0, 1, 2, 3:
+		fn := "pointcloud"
+		if r.Chance(1, 3) {
+			fn = "linestrip"
+		}
+		n := r.Range(1, 6)
+		if r.Chance(1, 10) {
+			n = 0
+		}
+		all := make([]map[string][][]float64, 4)
+		for k := 1; k <= 4; k++ {
+			all[k-1] = map[string][][]float64{}
+			for _, nm := range kindNames[k] {
+				if (k == 3 && nm == "Position") || r.Chance(1, 4) {
+					all[k-1][nm] = g.rows(n, k)
+				} else if r.Chance(1, 10) {
+					all[k-1][nm] = [][]float64{} // present but empty: dropped by the constructor
+				}
+			}
+		}
+		op := Op{Op: "build", Fn: fn, All: all, Spare: g.spare()}
+		if r.Chance(1, 2) {
+			cnt := make([][2]int, r.Range(1, 3))
+			for i := range cnt {
+				cnt[i] = [2]int{r.Range(0, n), r.Range(1, 4)}
+			}
+			op.Mats = cnt
+		} else {
+			op.Nil = r.Bool()
+		}
+		return g.push(op)
+	case 4, 5:
+		return g.push(Op{Op: "build", Fn: "quad", Vec: []float64{float64(2 * r.Range(1, 4)), float64(2 * r.Range(1, 4))}, Via: r.Bool()})
+	case 6:
+		return g.push(Op{Op: "build", Fn: hx.Pick(r, []string{"circle", "cone"}), N: r.Range(2, 5), Vec: []float64{float64(r.Range(1, 4)), float64(r.Range(1, 4))}, Via: r.Bool()})
+	case 7:
+		return g.push(Op{Op: "build", Fn: "cylinder", N: r.Range(3, 4), Vec: []float64{float64(r.Range(1, 4)), float64(r.Range(1, 4)), float64(r.Intn(3))}, Via: r.Bool()})
+	case 8:
+		return g.push(Op{Op: "build", Fn: hx.Pick(r, []string{"sphere", "hemisphere", "sphere-unwelded"}), N: r.Range(2, 4), Vec: []float64{float64(r.Range(1, 4)), float64(r.Intn(2))}})
+	}
+	return g.push(Op{Op: "build", Fn: "cubequads", Vec: []float64{float64(2 * r.Range(1, 3)), float64(2 * r.Range(1, 3)), float64(2 * r.Range(1, 3))}, Via: r.Chance(1, 3)})
+}
+
 func (g *gen) seed() int {
-	switch g.r.Intn(11) {
+	switch g.r.Intn(13) {
+	case 11, 12:
+		return g.seedBuild()
 	case 10:
 		return g.seedHollow()
 	case 0, 1, 2, 3, 4:
@@ -387,8 +437,14 @@ func (g *gen) step1() {
 	switch {
 	case w < 22:
 		g.appendOp(g.pick(uniform))
-	case w < 30:
+	case w < 26:
 		g.mapOp()
+	case w < 28:
+		g.crossDim(g.any())
+	case w < 30:
+		g.noopOp(g.any())
+	case w < 31:
+		g.shareMats(g.any())
 	case w < 32:
 		g.hollow(g.any())
 	case w < 35: // set an attribute: mostly of the mesh's own length
@@ -553,7 +609,7 @@ func (g *gen) step1() {
 			return
 		}
 		_, nm, _ := g.someAttr(i, 3)
-		g.push(Op{Op: "slice", I: i, Name: nm, Vec: []float64{float64(g.r.Range(-3, 12))}})
+		g.push(Op{Op: "slice", I: i, Name: nm, Vec: []float64{float64(g.r.Range(-3, 12))}, Via: g.r.Chance(1, 3), N: g.r.Intn(2)})
 	default:
 		splittable := func(k int) bool {
 			in := g.infos[k]
@@ -569,13 +625,126 @@ func (g *gen) step1() {
 	}
 }
 
+// crossDim: an attribute NAME that member i (or what it was derived from) carries under one dimension is defined under
+// ANOTHER dimension — by SetFloatNAttribute, SetFloatNData or CopyFloatNAttribute.  The maps of the other dimensions
+// are shared between the result, the receiver and everything derived from either.
+func (g *gen) crossDim(i int) int {
+	if i < 0 {
+		return -1
+	}
+	kd, nm, ok := g.someAttr(i, 0)
+	if !ok {
+		return -1
+	}
+	other := g.r.Range(1, 4)
+	if other == kd {
+		other = kd%4 + 1
+	}
+	n := g.infos[i].nverts
+	switch g.r.Intn(6) {
+	case 0:
+		return g.push(Op{Op: "setdata", I: i, K: other, Maps: map[string][][]float64{nm: g.rows(n, other)}})
+	case 1:
+		// a second mesh gets the name under the other dimension, then the attribute is copied over
+		j := g.push(Op{Op: "setattr", I: g.any(), K: other, Name: nm, Data: g.rows(n, other), Spare: g.spare()})
+		if j < 0 {
+			return -1
+		}
+		return g.push(Op{Op: "copyattr", I: i, J: j, K: other, Name: nm})
+	}
+	return g.push(Op{Op: "setattr", I: i, K: other, Name: nm, Data: g.rows(n, other), Spare: g.spare()})
+}
+
+// shareMats: member i gets the material slice member j hands out through Materials()
+func (g *gen) shareMats(i int) int {
+	if i < 0 {
+		return -1
+	}
+	j := g.pick(func(k int) bool { return g.infos[k].nmats > 0 })
+	if j < 0 {
+		j = g.any()
+	}
+	return g.push(Op{Op: "sharemats", I: i, J: j})
+}
+
+// noopOp: an operation whose parameters make it change NOTHING (nothing to merge, nothing to remove, nothing to
+// move): the place where an implementation is tempted to hand back or reuse what it was given
+func (g *gen) noopOp(i int) int {
+	if i < 0 {
+		return -1
+	}
+	in := g.infos[i]
+	_, nm3, has3 := g.someAttr(i, 3)
+	switch g.r.Intn(12) {
+	case 0:
+		if in.has(3, "Position") {
+			return g.push(Op{Op: "map", Fn: "translate", I: i, Vec: []float64{0, 0, 0}})
+		}
+	case 1:
+		if in.has(3, "Position") {
+			return g.push(Op{Op: "map", Fn: hx.Pick(g.r, []string{"scale", "trs"}), I: i, Vec: []float64{1, 1, 1, 1, 1, 1}})
+		}
+	case 2, 3, 4:
+		// a weld that merges nothing (the generator's positions are distinct almost always); the mesh may carry
+		// vertices no triangle refers to, before and after referenced ones
+		if has3 && in.topo == 0 && in.uniform {
+			return g.push(Op{Op: "weld", I: i, Name: nm3, N: g.r.Range(1, 4)})
+		}
+	case 5:
+		if kd, nm, ok := g.someAttr(i, 0); ok && in.uniform && in.idxValid && in.nverts > 0 {
+			return g.push(Op{Op: "filter", Fn: "ge", I: i, K: kd, Name: nm, Vec: []float64{-1000}, Via: g.r.Chance(1, 3)}) // keeps everything
+		}
+	case 6:
+		if has3 && in.topo == 1 && in.uniform && in.idxValid {
+			return g.push(Op{Op: "crop", I: i, Name: nm3, Vec: []float64{0, 0, 0, 100000, 100000, 100000}, Via: g.r.Chance(1, 3)})
+		}
+	case 7:
+		if in.uniform && in.idxValid {
+			return g.push(Op{Op: "removeunref", I: i, Via: g.r.Chance(1, 4)})
+		}
+	case 8:
+		if has3 && in.topo == 0 && in.uniform && in.idxValid {
+			return g.push(Op{Op: "slice", I: i, Name: nm3, Vec: []float64{-100000}, Via: g.r.Chance(1, 3), N: g.r.Intn(2)}) // everything on one side
+		}
+	case 9:
+		return g.push(Op{Op: "repeat", I: i, TRS: [][]float64{{0, 0, 0, 1, 1, 1}}})
+	case 10:
+		if kd, nm, ok := g.someAttr(i, 0); ok && kd <= 3 {
+			v := make([]float64, kd)
+			fn := "modify.add"
+			if g.r.Bool() {
+				fn = "modify.mul"
+				for c := range v {
+					v[c] = 1
+				}
+			}
+			return g.push(Op{Op: "map", Fn: fn, I: i, K: kd, Name: nm, Vec: v, N: g.r.Intn(3)})
+		}
+	default:
+		e := g.push(Op{Op: "empty", Topo: in.topo})
+		if e >= 0 && in.uniform {
+			if g.r.Bool() {
+				return g.push(Op{Op: "append", I: i, J: e})
+			}
+			return g.push(Op{Op: "append", I: e, J: i})
+		}
+	}
+	return -1
+}
+
 func (g *gen) identOp() {
 	i := g.any()
 	if i < 0 {
 		return
 	}
 	in := g.infos[i]
-	switch g.r.Intn(5) {
+	switch g.r.Intn(7) {
+	case 5:
+		g.push(Op{Op: "ident", I: i, Fn: hx.Pick(g.r, []string{"pipeline0", "decimate", "custom"})})
+	case 6:
+		if in.topo == 0 && in.nidx%3 == 0 || in.topo == 1 || (in.topo == 4 && in.nidx > 0) {
+			g.push(Op{Op: "ident", I: i, Fn: "scanprimspar"})
+		}
 	case 0:
 		g.push(Op{Op: "ident", I: i, Fn: "transform0"})
 	case 1:
@@ -593,6 +762,9 @@ func (g *gen) identOp() {
 			if kd == 3 && g.r.Bool() {
 				fn = "scan3par"
 			}
+			if kd == 1 && g.r.Bool() {
+				fn = "scan1par"
+			}
 			g.push(Op{Op: "ident", I: i, Fn: fn, Name: nm})
 		}
 	}
@@ -600,7 +772,7 @@ func (g *gen) identOp() {
 
 func (g *gen) mapOp() {
 	nasty := g.r.Chance(1, 10) // possibly a missing attribute / wrong topology: declared error expected
-	which := g.r.Intn(16)
+	which := g.r.Intn(20)
 	wantKind := g.r.Range(1, 3)
 	// choose the function first, then an operand that qualifies
 	need := func(k int) bool {
@@ -672,7 +844,7 @@ func (g *gen) mapOp() {
 		}
 	case 8:
 		if _, nm, ok := g.someAttr(i, 2); ok {
-			g.push(Op{Op: "map", Fn: hx.Pick(g.r, []string{"mo.scale2", "mo.normalize2"}), I: i, Name: nm, Vec: g.vec(2, -2, 4)})
+			g.push(Op{Op: "map", Fn: hx.Pick(g.r, []string{"mo.scale2", "mo.normalize2"}), I: i, Name: nm, Vec: g.vec(2, -2, 4), Via: g.r.Chance(1, 3)})
 		}
 	case 9:
 		if _, nm, ok := g.someAttr(i, 3); ok {
@@ -680,15 +852,43 @@ func (g *gen) mapOp() {
 		}
 	case 10:
 		if _, nm, ok := g.someAttr(i, 3); ok && in.has(3, "Normal") && in.uniform {
-			g.push(Op{Op: "map", Fn: "mo.alongnormal", I: i, Name: nm, Vec: []float64{float64(g.r.Range(-2, 3))}})
+			g.push(Op{Op: "map", Fn: "mo.alongnormal", I: i, Name: nm, Vec: []float64{float64(g.r.Range(-2, 3))}, Via: g.r.Chance(1, 3)})
 		}
 	case 11, 12:
 		if (in.topo == 0 && hasPos) || nasty {
 			g.push(Op{Op: "map", Fn: hx.Pick(g.r, []string{"mo.flatnormals", "mo.smoothnormals"}), I: i, Via: g.r.Chance(1, 3)})
 		}
+	case 16:
+		if in.topo == 0 && hasPos && in.idxValid && in.nidx%3 == 0 {
+			g.push(Op{Op: "map", Fn: "mo.smoothnormals-weld", I: i, Vec: []float64{float64(g.r.Range(0, 3))}, Via: g.r.Chance(1, 3)})
+		}
+	case 17:
+		if _, nm, ok := g.someAttr(i, 3); ok {
+			switch g.r.Intn(3) {
+			case 0:
+				g.push(Op{Op: "map", Fn: "mo.colorlut", I: i, Name: nm, Via: g.r.Chance(1, 3)})
+			case 1:
+				g.push(Op{Op: "map", Fn: "gaus.colorlut", I: i, Name: nm})
+			default:
+				if !in.has(3, "Scale") {
+					i = g.push(Op{Op: "setattr", I: i, K: 3, Name: "Scale", Data: g.rows(in.nverts, 3), Spare: g.spare()})
+				}
+				if i >= 0 {
+					g.push(Op{Op: "map", Fn: "gaus.scale", I: i, Name: "Scale", Vec: g.vec(3, 1, 3)})
+				}
+			}
+		}
+	case 18:
+		if _, nm, ok := g.someAttr(i, 4); ok {
+			g.push(Op{Op: "map", Fn: "gaus.rotate", I: i, Name: nm})
+		}
+	case 19:
+		if kd, nm, ok := g.someAttr(i, wantKind); ok && kd <= 3 {
+			g.push(Op{Op: "map", Fn: "modify.par", I: i, K: kd, Name: nm, Vec: g.vec(kd, -3, 5)})
+		}
 	default:
 		if _, nm, ok := g.someAttr(i, 3); ok && ((in.topo == 0 && in.idxValid && in.nidx%3 == 0) || in.topo == 1 || in.topo == 2) {
-			g.push(Op{Op: "map", Fn: "mo.laplacian", I: i, Name: nm, N: g.r.Range(1, 2)})
+			g.push(Op{Op: "map", Fn: hx.Pick(g.r, []string{"mo.laplacian", "mo.laplacian", "mo.laplacian-axis"}), I: i, Name: nm, N: g.r.Range(1, 2), Via: g.r.Chance(1, 4)})
 		}
 	}
 }
@@ -759,7 +959,11 @@ func (g *gen) export(i int) {
 func (g *gen) readerOp(i int) {
 	in := g.infos[i]
 	n := len(g.ops)
-	switch g.r.Intn(12) {
+	switch g.r.Intn(15) {
+	case 12, 13:
+		g.noopOp(i)
+	case 14:
+		g.crossDim(i)
 	case 0, 1, 2:
 		// (a nil *Material is dereferenced by Split, an index count off the triangle grid indexes out of range: crashes
 		// the model does not describe)
@@ -856,7 +1060,14 @@ func (g *gen) sharePattern() {
 		src := hx.Pick(g.r, ds)
 		in := g.infos[src]
 		k := -1
-		switch g.r.Intn(4) {
+		switch g.r.Intn(6) {
+		case 4:
+			k = g.crossDim(src)
+		case 5:
+			// another mesh adopts the family's material slice through Materials()
+			if o := g.any(); o >= 0 {
+				k = g.push(Op{Op: "sharemats", I: o, J: src})
+			}
 		case 0:
 			if in.has(3, "Position") {
 				k = g.push(Op{Op: "map", Fn: "translate", I: src, Vec: g.vec(3, -6, 6)})
